@@ -410,11 +410,11 @@ pub fn directed() -> Vec<Doc> {
                 if prefix_of(&f1.name) != prefix_of(&f2.name) || f1.width < 2 || f2.width < 2 {
                     continue;
                 }
-                for v in [0x1_0000u64, 0x7FF_FFFF] {
-                    let fit = |f: &Field| if f.width >= 4 { v } else { v.min(0xFFFF) >> 1 };
+                let cap = |f: &Field, v: u64| if f.width >= 4 { v } else { v.min(0x7FFF) };
+                for (v1, v2) in [(0x1_0000u64, 0x1_0000u64), (0x7FF_FFFF, 0x7FF_FFFF)] {
                     let mut steps = vec![Step::Query { id: 100, kind: QKind::Exists, path: "chara/a/std.bin".into() }];
-                    for f in [f1, f2] {
-                        steps.push(Step::Damage { file: path.clone(), damage: Damage::Field { name: f.name.clone(), off: f.off, width: f.width, be: f.be, value: fit(f) } });
+                    for (f, v) in [(f1, v1), (f2, v2)] {
+                        steps.push(Step::Damage { file: path.clone(), damage: Damage::Field { name: f.name.clone(), off: f.off, width: f.width, be: f.be, value: cap(f, v) } });
                     }
                     steps.extend(all_queries(0));
                     push(steps, vec![], &mut out);
@@ -502,6 +502,74 @@ pub fn directed() -> Vec<Doc> {
         for d in [0i64, 128, -128, 16, 1 << 20] {
             let o = (*off as i64 + d).max(0) as u64;
             push(vec![Step::DatRead { id: 7, file: file.clone(), offset: o }], vec![], &mut out);
+        }
+    }
+    // A second install whose dat file is long: one field of a header large, another "as many as
+    // physically fit behind it" for table entries of 2, 8 and 20 bytes (a count that large passes
+    // every read of the table it sizes, and the table is really there). Kept apart from the small
+    // install because the allocation bound grows with the bytes of the install.
+    {
+        let big = InstallSpec {
+            platform: 0,
+            repos: vec![RepoSpec {
+                exp: 0,
+                version_file: true,
+                packs: vec![PackSpec {
+                    cat: 0x04,
+                    chunk: 0,
+                    kind: IndexKind::Both,
+                    entries: vec![
+                        ent("chara/a/std.bin", 0, EntryKind::Standard { blocks: vec![b(600, Mode::Miniz(6)), b(300, Mode::Raw)], fill: 5 }),
+                        ent("chara/a/tex.tex", 0, EntryKind::Texture { header_len: 80, mips: vec![vec![b(512, Mode::Miniz(6))], vec![b(64, Mode::Stored)]], fill: 9, layout: 0 }),
+                        ent("chara/a/big.bin", 0, EntryKind::Standard { blocks: vec![b(16000, Mode::Raw); 8], fill: 17 }),
+                    ],
+                }],
+            }],
+            strays: vec![],
+            secondary_segments: true,
+        };
+        let lay2 = layout_of(&big);
+        let prefix_of = |n: &str| n.rfind('.').map(|p| n[..p].to_string()).unwrap_or_default();
+        for (path, bytes, fields, _) in &lay2.files {
+            if file_kind(path) != "dat" {
+                continue;
+            }
+            for (i, f1) in fields.iter().enumerate() {
+                // (the big entry's own structures have nothing behind them)
+                if f1.name.contains("big") {
+                    continue;
+                }
+                for f2 in fields.iter().skip(i + 1) {
+                    if prefix_of(&f1.name) != prefix_of(&f2.name) || f1.width < 4 || f2.width < 4 {
+                        continue;
+                    }
+                    for d in [2usize, 8, 20] {
+                        for (v1, v2) in [
+                            (0x7FFF_FFFFu64, (bytes.len().saturating_sub(f2.off + f2.width) / d) as u64),
+                            ((bytes.len().saturating_sub(f1.off + f1.width) / d) as u64, 0x7FFF_FFFF),
+                        ] {
+                            let mut steps = vec![];
+                            for (f, v) in [(f1, v1), (f2, v2)] {
+                                steps.push(Step::Damage { file: path.clone(), damage: Damage::Field { name: f.name.clone(), off: f.off, width: f.width, be: f.be, value: v } });
+                            }
+                            let mut id = 0;
+                            for p in ["chara/a/std.bin", "chara/a/tex.tex"] {
+                                id += 1;
+                                steps.push(Step::Query { id, kind: QKind::Extract, path: p.to_string() });
+                            }
+                            out.push(Doc {
+                                prop: "C18".into(),
+                                seed: 0xD1EC7ED0 + idx,
+                                cfg: Cfg::Hostile,
+                                benign: Benign::quiet(),
+                                io_faults: vec![],
+                                body: Body::C18(C18Doc::Archive { install: big.clone(), steps }),
+                            });
+                            idx += 1;
+                        }
+                    }
+                }
+            }
         }
     }
     // assets
